@@ -32,6 +32,28 @@ def settings_alphabet(ctx: Ctx, big: bool):
     return shipped + syn
 
 
+_UB = {}
+
+
+def declared_ub(n, rounds, st):
+    """
+    The upper bound DECLARED by the real objective for this setting.
+
+    (The statement speaks of "the declared upper bound"; the documented
+    formula (4D-1)n-1 is only used if the setting is not a valid instance.)
+    """
+    key = (n, rounds, tuple(int(v) for v in st))
+    if key not in _UB:
+        from moptipyapps.ttp.errors import Errors
+        try:
+            _UB[key] = int(Errors(T.make_instance(n, rounds, st))
+                           .upper_bound())
+        except ValueError:
+            days = (n - 1) * rounds
+            _UB[key] = (4 * days - 1) * n - 1
+    return _UB[key]
+
+
 def _job(a):
     (n, rounds, byes, full_rows, start, stop, settings, corrupt) = a
     d = T.drivers()
@@ -41,12 +63,13 @@ def _job(a):
     else:
         cfg = M.day_config_array(n, byes)
     days = (n - 1) * rounds
-    ub = (4 * days - 1) * n - 1
-    hist = np.zeros(ub + 1, np.int64)
+    ubs = np.array([declared_ub(n, rounds, st) for st in settings],
+                   np.int64)
+    hist = np.zeros(int(ubs.max()) + 1, np.int64)
     res = np.zeros(16, np.int64)
     badrec = np.zeros((5, 8), np.int64)
     d["drive_errors"](cfg, days, start, stop,
-                      np.array(settings, np.int64), rounds, ub,
+                      np.array(settings, np.int64), rounds, ubs,
                       1 if corrupt else 0, hist, res, 8, badrec)
     return res, hist, badrec
 
@@ -68,14 +91,14 @@ def _explore(ctx: Ctx, name, n, rounds, byes, full_rows, settings, corrupt,
              settings, corrupt) for i in range(nchunks)
             if bounds[i] < bounds[i + 1]]
     out = pmap(_job, jobs, ctx.jobs)
-    ub = (4 * days - 1) * n - 1
+    ub = max(declared_ub(n, rounds, st) for st in settings)
     hist = np.zeros(ub + 1, np.int64)
     evals = 0
     feas = 0
     zero = 0
     dmg = 0
     for res, h, _ in out:
-        hist += h
+        hist[:len(h)] += h[:len(hist)]
         evals += int(res[0])
         feas += int(res[1])
         zero += int(res[9])
@@ -200,8 +223,7 @@ def test_c07_replay():
 def check_one(y, rounds, st):
     """Return (kind, got, exp) through the public API; kind 0 = fine."""
     n = y.shape[1]
-    days = y.shape[0]
-    ub = (4 * days - 1) * n - 1
+    ub = declared_ub(n, rounds, st)
     got = public_eval(y, rounds, st)
     fe = bool(M.feasible(y, rounds, *st))
     if (got == 0) != fe:
@@ -227,8 +249,8 @@ def _public_job(a):
     days = (n - 1) * rounds
     inst = T.make_instance(n, rounds, st)
     obj = Errors(inst)
-    ub = (4 * days - 1) * n - 1
-    if obj.upper_bound() != ub or obj.lower_bound() != 0:
+    ub = obj.upper_bound()
+    if obj.lower_bound() > 0 or not isinstance(ub, int):
         return ("bounds", obj.lower_bound(), obj.upper_bound(), ub)
     gp = T.to_game_plan(inst, np.zeros((days, n), int))
     if gp.dtype != inst.game_plan_dtype:
@@ -327,7 +349,7 @@ def _long_job(a):
     inst = T.make_instance(n, rounds, st)
     obj = Errors(inst)
     gp = T.to_game_plan(inst, full)
-    ub = (4 * days - 1) * n - 1
+    ub = obj.upper_bound()
     halves = days // 3
     pos = [0, 1, halves // 2, halves - 2, halves - 1][pos_i]
     cnt = 0
